@@ -401,6 +401,20 @@ class Machine:
 
     def _oracle0(self, g, bb, tt, env):
         c = callee(tt) or ""
+        if "cmp::impls::<impl std::cmp::Partial" in c and " for &" in c and c.rsplit("::", 1)[-1] in (
+                "eq", "ne", "lt", "le", "gt", "ge", "partial_cmp") and (tt.get("fn") or {}).get("def"):
+            # comparison of two references: std's `impl PartialEq<&B> for &A` / `PartialOrd<&B> for &A` compare what they point to
+            fn_ = dict(tt["fn"])
+            fn_["resolved"] = None
+            fn_["generics"] = [(str(x)[1:].lstrip() if str(x).startswith("&") else x) for x in (fn_.get("generics") or [])]
+            fn_["generics"] = [(x[4:] if isinstance(x, str) and x.startswith("mut ") else x) for x in fn_["generics"]]
+            tt2_ = dict(tt, fn=fn_)
+            c2_ = callee(tt2_) or fn_["def"]
+            meth_ = c2_.rsplit("::", 1)[-1]
+            probe_ = c2_ if meth_ in ("eq", "partial_cmp") else (c2_.rsplit("::", 1)[0] + ("::eq" if meth_ == "ne" else "::partial_cmp"))
+            h_ = self.resolve_by_type(probe_, tt2_)
+            if h_ is not None and not h_.derived:
+                tt, c = tt2_, c2_          # a comparison written by hand in the crate decides (it may ignore fields)
         raw = [self._operand(env, x) for x in tt["args"]]
         a = [absint.deref(x) for x in raw]
         if self.intercept is not None:
@@ -436,10 +450,13 @@ class Machine:
                         tgt.set(cur + piece)
                     return []
             return UNKNOWN
-        if c and raw and (tt.get("fn") or {}).get("resolved") is None and self.gmap_stack and self.gmap_stack[-1]:
+        if c and raw and (tt.get("fn") or {}).get("resolved") is None and ((self.gmap_stack and self.gmap_stack[-1]) or
+                                                                             c.rsplit("::", 1)[0].endswith(("cmp::PartialEq", "cmp::PartialOrd"))):
             # a trait method on a generic type whose instantiation is known from the enclosing calls: an impl written in the crate
             # takes precedence over the std pass-through models (`From` / `Into` / `Deref` ...)
             h0 = self.resolve_by_type(c, tt)
+            if h0 is not None and h0.derived and not (self.gmap_stack and self.gmap_stack[-1]):
+                h0 = None               # (a derived comparison is the structural one: the model below is exact for it)
             if h0 is not None and self.inline(c):
                 return self.run_tagged(h0, raw, self.subst_generics((tt.get("fn") or {}).get("generics")))
         if c.rsplit("::", 1)[-1] in ("lt", "le", "gt", "ge") and c.rsplit("::", 1)[0].endswith("cmp::PartialOrd") and len(raw) == 2:
@@ -792,6 +809,12 @@ class Machine:
                 return copy_spine(a0)
             if "rc::Rc" not in c and "rc::Rc<" not in g0[:20] and has_cells(a0):
                 return copy_cells(a0)          # (a derived Clone of something that holds a list: the cells are not shared)
+        if end == "to_string" and "ToString" in c and isinstance(a0, int) and not isinstance(a0, bool) and tt is not None:
+            gens_ = [str(x) for x in (self.subst_generics((tt.get("fn") or {}).get("generics")) or []) if not str(x).startswith("'")]
+            if gens_ and gens_[0].replace("&", "").strip() == "char":
+                return chr(a0)                       # a character as a one-character string
+            if gens_ and gens_[0].replace("&", "").strip() in PRIM_INTS:
+                return str(a0)
         if end == "to_string" and "ToString" in c and isinstance(a0, (Enum, list)) and tt is not None:
             gens = [str(x) for x in (self.subst_generics((tt.get("fn") or {}).get("generics")) or []) if not str(x).startswith("'")]
             ty = gens[0].replace("&", "").strip() if gens else ""
@@ -802,7 +825,8 @@ class Machine:
              "std::convert::AsRef::as_ref", "std::convert::AsMut::as_mut", "std::borrow::Borrow::borrow", "std::clone::Clone::clone", "std::convert::AsRef>::as_ref", "std::convert::AsMut>::as_mut",
              "std::borrow::Borrow>::borrow", "std::borrow::BorrowMut>::borrow_mut", "std::rc::Rc::new", "std::boxed::Box::new",
              "RefCell::borrow", "RefCell::borrow_mut", "RefCell::new", "std::string::ToString>::to_string", "std::borrow::ToOwned>::to_owned",
-             "String::as_str", "str>::to_string", "str>::to_owned", "String::as_mut_str", "std::mem::take_placeholder") or \
+             "String::as_str", "str>::to_string", "str>::to_owned", "String::as_mut_str", "std::mem::take_placeholder",
+             "Vec::as_slice", "Vec<T, A>::as_slice", "Vec::as_mut_slice", "Vec<T, A>::as_mut_slice", "SmallVec::as_slice", "SmallVec<A>::as_slice") or \
                 (end == "clone" and ("Clone" in c or "clone::impls" in c)) or \
                 (end in ("into", "from") and len(a) == 1 and ("convert::Into" in c or "convert::From" in c)):
             if end in ("into", "from") and tt is not None:
